@@ -3,6 +3,10 @@
 From Coq Require Import List Bool NArith ZArith Arith Lia Permutation.
 Import ListNotations.
 From BioVerif Require Import Model.ISISSpeaker.
+From BioVerif Require Model.ISISCodec Model.Adj Model.LSDB.
+Module C := ISISCodec.
+Module A := Adj.
+Module L := LSDB.
 From BioVerif Require Spec.ISISCodecSpec Proofs.ISISCodecProofs Proofs.AdjProofs Proofs.LSDBProofs.
 Module CS := ISISCodecSpec.
 Module CP := ISISCodecProofs.
@@ -109,7 +113,7 @@ Qed.
 Lemma psnps_out_spec : forall s, cfg_ok s ->
   psnps_out s =
   flat_map (fun p =>
-    if if_up (snd p) || negb (is_empty (if_nbrs (snd p))) then
+    if if_up (snd p) then
       match psnps_for s (fst p) with C.Ok ps => map (fun x => (fst p, psnp_bytes x)) ps | _ => [] end
     else []) (indexed 0 (sp_ifs s)).
 Proof. reflexivity. Qed.
